@@ -70,6 +70,9 @@ def stream(ctx, n, order, tts, aged, nmaps, nsubs):
             check(ctx, M, 'let({})', r0, tu, (u, tu))
             if r0 is not None and r0 != u:
                 ctx.violation('C04:wrong-function', f'let({{}}, {u}) returned another reference {r0}', M.case())
+            r0 = M.op('rename', u, {})
+            if r0 != u:
+                ctx.violation('C04:wrong-function', f'rename({u}, {{}}) returned {r0}', M.case())
             # constants
             for d in partial_assignments(n):
                 if not d:
